@@ -121,14 +121,17 @@ void joins(graph& g) {
 }
 
 void routing(graph& g) {
-    split_node<std::tuple<int, std::string, double>> sp(g);
+    // same element types on purpose: a port/element index mix-up must stay compilable so that the routing rule (not the
+    // compiler) reports it
+    split_node<std::tuple<int, int, int>> sp(g);
     indexer_node<int, std::string, double> ix(g);
     queue_node<int> qi(g);
     queue_node<std::string> qs(g);
     queue_node<double> qd(g);
+    queue_node<int> qi1(g), qi2(g);
     make_edge(output_port<0>(sp), qi);
-    make_edge(output_port<1>(sp), qs);
-    make_edge(output_port<2>(sp), qd);
+    make_edge(output_port<1>(sp), qi1);
+    make_edge(output_port<2>(sp), qi2);
     make_edge(qi, input_port<0>(ix));
     make_edge(qs, input_port<1>(ix));
     make_edge(qd, input_port<2>(ix));
@@ -138,7 +141,7 @@ void routing(graph& g) {
         return continue_msg();
     });
     make_edge(ix, sink);
-    sp.try_put(std::make_tuple(1, std::string("a"), 2.0));
+    sp.try_put(std::make_tuple(1, 2, 3));
     input_port<0>(ix).try_put(1);
 }
 
